@@ -145,6 +145,13 @@ pub struct MergeCase {
     /// every data-holding node but the last one (a single-vertex tree: its only node)
     #[serde(default)]
     pub h_reads: bool,
+    /// read data of the LEFT tree before the merge, all holders but the last one (a single-vertex
+    /// tree: its only one): the merge then meets vertices whose datum was already read
+    #[serde(default)]
+    pub g_reads: bool,
+    /// quick tier: all read orders up to 3 holders (thorough: 4), rotations and their reversals above
+    #[serde(default)]
+    pub few_orders: bool,
 }
 
 fn permutations(v: &[usize]) -> Vec<Vec<usize>> {
@@ -176,6 +183,24 @@ pub fn check_merge<const N: usize>(acc: &mut Acc, c: &MergeCase) -> bool {
         if crate::hx::step_nocheck(&mut g, &mut m, op).is_err() {
             return false; // building the operand failed: C01-C04 judge that, not C11
         }
+    }
+    if c.g_reads {
+        let holders: Vec<usize> = (0..c.g_shape.size()).filter(|i| c.g_data[*i].is_some()).collect();
+        let to_read: Vec<usize> = if c.g_shape.size() == 1 { holders.clone() } else { holders[..holders.len().saturating_sub(1)].to_vec() };
+        if to_read.is_empty() {
+            return false; // same as the variant without reads
+        }
+        for i in to_read {
+            if !m.present.contains_key(&gids[i]) || crate::hx::step_nocheck(&mut g, &mut m, &Op::Data(gids[i])).is_err() {
+                return false;
+            }
+        }
+        let mut want: Vec<usize> = gids.clone();
+        want.sort_unstable();
+        if m.keys() != want {
+            return false; // the reads collected part of the left tree: not a tree any more
+        }
+        acc.bump("merges_into_a_left_tree_holding_read_data", 1);
     }
     let left = gids[c.left_node];
     let h = c.h_shape.htree(&c.h_data);
@@ -267,7 +292,7 @@ pub fn check_merge<const N: usize>(acc: &mut Acc, c: &MergeCase) -> bool {
     }
     // reads afterwards: data bytes and collections as if made by add/bind/put
     let holders: Vec<usize> = m.present.iter().filter(|(_, v)| v.data.is_some()).map(|(k, _)| *k).collect();
-    let orders: Vec<Vec<usize>> = if holders.len() <= 4 {
+    let orders: Vec<Vec<usize>> = if holders.len() <= if c.few_orders { 3 } else { 4 } {
         permutations(&holders)
     } else {
         let mut o = vec![];
@@ -326,7 +351,7 @@ fn h_id_plans(n: usize) -> Vec<Vec<usize>> {
 pub struct Space {
     pub g_trees: Vec<(Shape, Vec<Option<u8>>)>,
     pub h_trees: Vec<(Shape, Vec<Option<u8>>)>,
-    pub variants: Vec<(IdPlan, bool, usize, bool)>, // g id plan, put first, h id plan index, read h's data first
+    pub variants: Vec<(IdPlan, bool, usize, bool, bool)>, // g id plan, put first, h id plan index, read h's data first, read g's data first
 }
 
 pub fn trees(max: usize, base: u8) -> Vec<(Shape, Vec<Option<u8>>)> {
@@ -359,8 +384,9 @@ pub fn run_c11(tier: &str) -> Outcome {
             for (i, p) in G_PLANS.iter().enumerate() {
                 for put_first in [false, true] {
                     // the full product in quick; in thorough the big sizes get a rotating subset
-                    v.push((*p, put_first, i % 4, false));
-                    v.push((*p, put_first, (i + 1) % 4, true));
+                    v.push((*p, put_first, i % 4, false, false));
+                    v.push((*p, put_first, (i + 1) % 4, true, false));
+                    v.push((*p, put_first, (i + 2) % 4, put_first, true));
                 }
             }
             v
@@ -373,8 +399,8 @@ pub fn run_c11(tier: &str) -> Outcome {
         let (hi, vi) = (rest / nv, rest % nv);
         let (gs, gd) = &space.g_trees[gi];
         let (hs, hd) = &space.h_trees[hi];
-        let (plan, put_first, hplan, h_reads) = space.variants[vi];
-        // thorough: the largest pairs get a rotating (deterministic) share of the 20 variants:
+        let (plan, put_first, hplan, h_reads, g_reads) = space.variants[vi];
+        // thorough: the largest pairs get a rotating (deterministic) share of the 30 variants:
         // 7 vertices in total a fifth, 4 x 4 a twentieth
         if !quick && gs.size() + hs.size() == 7 && (gi + hi + vi) % 5 != 0 {
             return;
@@ -399,6 +425,8 @@ pub fn run_c11(tier: &str) -> Outcome {
                     h_ids: h_id_plans(hs.size())[hplan].clone(),
                     left_node,
                     h_reads,
+                    g_reads,
+                    few_orders: quick,
                 };
                 crate::inflight::begin_case(|| json!({"engine": "treegen", "property": "C11", "case": c, "kind": "crash-or-hang", "tags": ["C11"]}));
                 let counted = if n == 3 { check_merge::<3>(acc, &c) } else { check_merge::<16>(acc, &c) };
@@ -411,12 +439,12 @@ pub fn run_c11(tier: &str) -> Outcome {
         }
     });
     let mut machinery = vec![];
-    for k in ["merges_creating_vertices", "merges_with_overlapping_paths", "merges_overwriting_unread_datum_on_left", "merges_with_grouped_left", "merges_with_ungrouped_left", "merges_with_new_vertices_on_recycled_ids", "merges_of_a_right_tree_holding_read_data", "reads_after_merge"] {
+    for k in ["merges_creating_vertices", "merges_with_overlapping_paths", "merges_overwriting_unread_datum_on_left", "merges_with_grouped_left", "merges_with_ungrouped_left", "merges_with_new_vertices_on_recycled_ids", "merges_of_a_right_tree_holding_read_data", "merges_into_a_left_tree_holding_read_data", "reads_after_merge"] {
         if acc.counters.get(k).copied().unwrap_or(0) == 0 && acc.fail_total == 0 {
             machinery.push(format!("vacuous run: situation '{k}' never occurred"));
         }
     }
-    let rule = format!("every pair of labelled trees (left <= {gmax} vertices, right <= {hmax}; in the thorough tier pairs of 7 vertices get a fifth and pairs of 8 a twentieth of the variants, rotating; labels α0/x/foo, sibling labels distinct), every placement of data (distinct bytes per vertex, inline and heap; the empty datum; data that differ from the ones they overwrite only by a trailing 00 byte), 5 id assignments of the left tree (dense, reversed, gaps, new ids landing on recycled slots, left tree built on recycled slots) x put before/after bind, 4 id assignments of the right tree (dense, shifted, reversed, far beyond the capacity of the left graph), the right tree with unread data and with data that was already read before the merge, every `left`, Sodg<3> and Sodg<16>; kept if the reference model says the result stays within the limits. Oracle: Ok; right graph unchanged; the graft applied to the model as add/bind/put (new ids read back from the implementation, each absent before and never returned by next_id) equals the left graph afterwards (vertices, edges); injective mapping; then every order of reads of the data-holding vertices (<= 4 holders: all permutations) compared with the model read by read (bytes and alive set). distinct_nontrivial = merge cases inside the limits");
+    let rule = format!("every pair of labelled trees (left <= {gmax} vertices, right <= {hmax}; in the thorough tier pairs of 7 vertices get a fifth and pairs of 8 a twentieth of the variants, rotating; labels α0/x/foo, sibling labels distinct), every placement of data (distinct bytes per vertex, inline and heap; the empty datum; data that differ from the ones they overwrite only by a trailing 00 byte), 5 id assignments of the left tree (dense, reversed, gaps, new ids landing on recycled slots, left tree built on recycled slots) x put before/after bind, 4 id assignments of the right tree (dense, shifted, reversed, far beyond the capacity of the left graph), the right tree with unread data and with data that was already read before the merge, the left tree likewise (all holders read but one), every `left`, Sodg<3> and Sodg<16>; kept if the reference model says the result stays within the limits. Oracle: Ok; right graph unchanged; the graft applied to the model as add/bind/put (new ids read back from the implementation, each absent before and never returned by next_id) equals the left graph afterwards (vertices, edges); injective mapping; then every order of reads of the data-holding vertices (all permutations up to 4 holders, quick tier 3; above: every rotation and its reversal) compared with the model read by read (bytes and alive set). distinct_nontrivial = merge cases inside the limits");
     super::outcome("C11", tier, "exploration", &rule, acc, true, json!({"left_trees": ng, "right_trees": nh, "variants": nv}), t0.elapsed().as_secs_f64(), vec!["checked up to the choice of new ids, which the statement leaves open".to_string(), "the merge inside longer histories (C01-C03 afterwards) is additionally explored by the Merge transition of HX in the C01-C05 runs".to_string()], machinery)
 }
 
